@@ -3,6 +3,8 @@
     scripted upstream answers, and what the real pipeline was observed to do. *)
 From AGH Require Export Base.Run Base.NetAddr Base.RuleEngine Model.Pipeline Model.PipelineLists Model.FilterQueue.
 From AGH Require Model.Rewrites.
+From AGH Require Model.ClientIndex Model.Schedule.
+From AGH Require Export Model.PipelineClients.
 Local Open Scope N_scope.
 
 (** A legacy rewrite as configured (domain, answer, what netip.ParseAddr made
@@ -53,7 +55,51 @@ Inductive case :=
      asked again, and the proxy rewrites the TTLs of cached records. *)
   | CRepeat (c : cfg) (allow block : list rule) (sb par : list bytes)
             (ss : list (bytes * N * ssverdict))
-            (q : request) (ups : list (bytes * option resp)) (up : option resp) (obs : outcome).
+            (q : request) (ups : list (bytes * option resp)) (up : option resp) (obs : outcome)
+  (* round 4 (C02): the request's persistent client is LOOKED UP, not given.
+     [inner] is a CPipe case whose request carries no client; the registry is
+     the one reached by the history [ops] of Storage.Add / Update /
+     RemoveByName calls (each with whether the real call succeeded) on a
+     storage configured with the allowed [tags]; [dhcp] is the lease table
+     (address -> MAC); [cid] is the ClientID the request carried (through the
+     real HandleBefore; empty = none); [handed] is what the real
+     Storage.ApplyClientFiltering put into the Settings for this ClientID and
+     address: ClientName, FilteringEnabled, ClientTags (in the order urlfilter
+     gets them). *)
+  | CReg (tags : list bytes) (ops : list (ClientIndex.op * bool)) (dhcp : list (ClientIndex.addr * bytes))
+         (cid : bytes) (handed : bytes * bool * list bytes) (inner : case)
+  (* round 4 (C02): clients created and changed through the real HTTP
+     handlers of package home (POST /control/clients/add, update, delete and
+     the configuration-file constructor); for every probe (ClientID,
+     address): what ApplyClientFiltering handed over and, for every (host,
+     record type), whether CheckHostRules on the settings of that request
+     reported "filtered" (the check filterDNSResponse makes for a record);
+     [gfilter] is the global filtering switch, protection is on, nothing else
+     is configured. *)
+  | CHttp (gfilter : bool) (block : list rule) (tags : list bytes) (ops : list (ClientIndex.op * bool))
+          (probes : list (bytes * addr * (bytes * bool * list bytes) * list (bytes * N * bool))).
+
+(** A client's BlockedServices value in the registry cases: the ids and
+    whether its pause schedule contains now (a full or an empty week). *)
+Definition full_day : Schedule.day_range := {| Schedule.dr_start := 0; Schedule.dr_end := Schedule.ns_day |}.
+Definition reg_blocked (ids : list bytes) (paused : bool) : ClientIndex.blocked :=
+  {| ClientIndex.b_ids := ids;
+     ClientIndex.b_sched := if paused then repeat full_day 7 else repeat Schedule.zero_range 7;
+     ClientIndex.b_zone := 0 |}.
+Definition paused_now (b : ClientIndex.blocked) : bool :=
+  Schedule.contains (ClientIndex.b_sched b) (fun _ => 0%Z) 0%Z.
+Definition rclient := ClientIndex.Build_client.
+Definition ROAdd := ClientIndex.OAdd.
+Definition ROUpdate := ClientIndex.OUpdate.
+Definition RORemove := ClientIndex.ORemove.
+Definition reg_config (tags : list bytes) : ClientIndex.config :=
+  {| ClientIndex.cfg_tags := tags; ClientIndex.cfg_addr_ok := fun _ => true |}.
+Definition reg_dhcp (tbl : list (ClientIndex.addr * bytes)) : ClientIndex.addr -> option bytes :=
+  fun a => ClientIndex.zget a tbl.
+
+Definition handed_eqb (a b : bytes * bool * list bytes) : bool :=
+  eqb_bytes (fst (fst a)) (fst (fst b)) && Bool.eqb (snd (fst a)) (snd (fst b)) &&
+  eqb_list eqb_bytes (snd a) (snd b).
 
 Definition taddr_eqb (a b : taddr) : bool := addr_eqb (ta_addr a) (ta_addr b).
 
@@ -188,8 +234,50 @@ Definition lists_explain (l : list (outcome * outcome * bool)) : outcome :=
   | None => match rev l with (m, _, _) :: _ => m | nil => empty_outcome end
   end.
 
+(** The registry cases. *)
+Definition reg_request (tags : list bytes) (ops : list (ClientIndex.op * bool))
+    (dhcp : list (ClientIndex.addr * bytes)) (cid : bytes) (q : request) : request * bool :=
+  let r := run_ops (reg_config tags) ops ClientIndex.empty_index in
+  (attach paused_now (fst r) (reg_dhcp dhcp) cid q, snd r).
+
+Definition reg_handed (cf : cfg) (tags : list bytes) (ops : list (ClientIndex.op * bool))
+    (dhcp : list (ClientIndex.addr * bytes)) (cid : bytes) (a : addr) : bytes * bool * list bytes :=
+  handed_over cf (owner (fst (run_ops (reg_config tags) ops ClientIndex.empty_index)) (reg_dhcp dhcp) cid a).
+
+(** The configuration of a CHttp case. *)
+Definition zero4 : addr := mkAddr V4 0 nil.
+Definition http_cfg (gf : bool) : cfg :=
+  mkCfg true None gf false false MDefault zero4 zero4 10 false
+        nil false nil BHEmpty BHEmpty
+        nil false nil nil nil false None false nil nil nil None.
+
+(** One probe of a CHttp case: model (handed over, verdict per check). *)
+Definition http_probe (cf : cfg) (block : list rule) (ix : ClientIndex.index) (cid : bytes) (a : addr)
+    (checks : list (bytes * N * bool)) : (bytes * bool * list bytes) * list bool :=
+  let q := attach paused_now ix (fun _ => None) cid (mkRequest nil 1 a None false None) in
+  let st := request_settings cf q in
+  (handed_over cf (owner ix (fun _ => None) cid a),
+   map (fun ch => r_filtered (match_host (match_request nil) (match_request block) st (fst (fst ch)) (snd (fst ch)))) checks).
+
+Definition http_ok (cf : cfg) (block : list rule) (tags : list bytes) (ops : list (ClientIndex.op * bool))
+    (probes : list (bytes * addr * (bytes * bool * list bytes) * list (bytes * N * bool))) : bool :=
+  let r := run_ops (reg_config tags) ops ClientIndex.empty_index in
+  snd r &&
+  forallb (fun p => match p with
+                    | (cid, a, handed, checks) =>
+                        let m := http_probe cf block (fst r) cid a checks in
+                        handed_eqb (fst m) handed && eqb_list Bool.eqb (snd m) (map snd checks)
+                    end) probes.
+
 Definition model (c : case) : outcome :=
   match c with
+  | CReg tags ops dhcp cid _ (CPipe cf allow block sb par ss q ups up _) =>
+      process (match_request allow) (match_request block)
+              (fun h => mem_bytes h sb) (fun h => mem_bytes h par) (ss_lookup ss)
+              Rewrites.isort
+              cf (scripted ups up) (fst (reg_request tags ops dhcp cid q))
+  | CReg _ _ _ _ _ _ => empty_outcome
+  | CHttp _ _ _ _ _ => empty_outcome
   | CLists cf st sb par steps => lists_explain (run_lists cf sb par st steps)
   | CQueue cf st sb par steps => lists_explain (run_queue cf sb par (pinit st) steps)
   | CPipe cf allow block sb par ss q ups up _
@@ -202,6 +290,11 @@ Definition model (c : case) : outcome :=
 
 Definition case_ok (c : case) : bool :=
   match c with
+  | CReg tags ops dhcp cid handed (CPipe cf _ _ _ _ _ q _ _ obs) =>
+      snd (reg_request tags ops dhcp cid q) && outcome_eqb (model c) obs &&
+      handed_eqb (reg_handed cf tags ops dhcp cid (q_addr q)) handed
+  | CReg _ _ _ _ _ _ => false
+  | CHttp gf block tags ops probes => http_ok (http_cfg gf) block tags ops probes
   | CLists cf st sb par steps => forallb (fun x => snd x) (run_lists cf sb par st steps)
   | CQueue cf st sb par steps => forallb (fun x => snd x) (run_queue cf sb par (pinit st) steps)
   | CPipe _ _ _ _ _ _ _ _ _ obs => outcome_eqb (model c) obs
